@@ -185,7 +185,7 @@ func (g *G) anyOrBool(ctx *xdoc.Node, depth int) (xast.Expr, bool) {
 // NumDoc is the document shape for C08: numeric values (and a few non-numeric ones for NaN).
 func NumDoc() DocOpts {
 	o := DefaultDoc()
-	o.Texts = []string{"1", "2", "10", "-3", "0.5", "7", ".5", "12.50", "t", "100", " 4 ", "1e2", "\n6\n", ".125"}
+	o.Texts = []string{"1", "2", "10", "-3", "0.5", "7", ".5", "12.50", "t", "100", " 4 ", "1e2", "\n6\n", ".125", "9007199254740992", "4611686018427387904", "-9223372036854775808"}
 	o.AtVals = []string{"1", "2", "3", "-1", "0", "", "x", "2.5"}
 	o.MaxDepth = 3
 	o.MaxFan = 4
